@@ -317,7 +317,7 @@ fn case_strategy(role: Role) -> BoxedStrategy<Case> {
 fn deviation_matrix() -> Vec<Case> {
     let mut out = Vec::new();
     for role in Role::ALL {
-        for kind in [SendKind::Qos1, SendKind::Qos2, SendKind::Subscribe, SendKind::Unsubscribe] {
+        for kind in [SendKind::Qos1, SendKind::Qos2, SendKind::Subscribe, SendKind::Unsubscribe, SendKind::NoBlock] {
             if role.is_server() && matches!(kind, SendKind::Subscribe | SendKind::Unsubscribe) {
                 continue;
             }
@@ -356,7 +356,7 @@ fn deviation_matrix() -> Vec<Case> {
             }
         }
         // a send of every kind failing for every local cause (over-long topic, over-long user property, over the peer's maximum), then traffic
-        for kind in [SendKind::Qos0, SendKind::Qos1, SendKind::Qos2, SendKind::Subscribe, SendKind::Unsubscribe] {
+        for kind in [SendKind::Qos0, SendKind::Qos1, SendKind::Qos2, SendKind::Subscribe, SendKind::Unsubscribe, SendKind::NoBlock] {
             if role.is_server() && matches!(kind, SendKind::Subscribe | SendKind::Unsubscribe) {
                 continue;
             }
